@@ -3,6 +3,11 @@
 From V.C15 Require Import Model Spec.
 Open Scope Z_scope.
 
+(* a string given by its bytes (results that are not valid UTF-8, e.g. a substring cut inside a
+   multi-byte character) *)
+Fixpoint bytes_str (l : list nat) : string :=
+  match l with [] => EmptyString | b :: r => String (Ascii.ascii_of_nat b) (bytes_str r) end.
+
 Fixpoint elem_eqb (a b : elem) {struct a} : bool :=
   match a, b with
   | ENull, ENull => true
